@@ -57,3 +57,9 @@ chk("C17", "other",
     "Depth bound 2-3 (+1); <= 3 columns x <= 3 rows; object-dtype arrays stand in for float arrays; removerows in tolerance mode; a columnfile without columns is outside the claim; HDF-loaded start states not executed (IO).",
     "symbolic execution of the Python class (pysym values, solver-decided forks) with exhaustive bounded operation sequences + shadow-model comparison; concrete replay", "DESIGN.md 3/C17", "pysym")
 del NA["C17"]
+
+chk("C16", "other",
+    "Exhaustive concrete check of the group axioms on the operator lists the real generator code produces (all ten groups, all products) plus z3 proofs of o.G.o^T = G on the symbolic metric of each conforming cell; find_uniq_u is if-converted from its current source (AST transformation) and executed by pysym on a symbolic 3x3 UBI so that each result entry is one term: member-of-orbit and maximal trace for ALL real UBIs, orbit invariance under every pre-applied operator and idempotence under the unique-maximum hypothesis are z3 validity queries (linear real arithmetic); find_uniq_hkls likewise for all integer hkl with |h|<=499.",
+    "Real-arithmetic model; the if-conversion is a trusted source transformation (recorded in the evidence); exact ties of the maximal trace are excluded by hypothesis and reported as a known finding; quick tier pre-applies a subset of the operators of the 12- and 24-element groups (all in thorough).",
+    "AST if-conversion + symbolic execution of the Python source (pysym) + z3 validity queries; exhaustive finite group checks; counterexamples replayed on the real functions", "DESIGN.md 3/C16", "pysym")
+del NA["C16"]
